@@ -181,6 +181,7 @@ func TestC05WRRHistory(t *testing.T) {
 				rt.Fatalf("harness: %v", err)
 			}
 			defer p.close()
+			p.dressFrom(rt)
 			h = &histState{p: p, until: map[string]time.Time{}}
 			h.noteWeight()
 			for i := 0; i < nev; i++ {
@@ -260,7 +261,7 @@ func TestC05WRRHistory(t *testing.T) {
 			weightsNow = append(weightsNow, h.p.weight[m])
 		}
 		nt := len(h.p.names) >= 2 && len(h.evs) > 0 && (nonUniform(weightsNow) || inWindowEjected)
-		sub.Case(map[string]any{"weights": ws, "events": h.evs, "N": N, "via": via, "inflight": load, "observers": obs}, nt, labels...)
+		sub.Case(map[string]any{"weights": ws, "events": h.evs, "N": N, "via": via, "inflight": load, "observers": obs, "dress": h.p.dress}, nt, append(labels, h.p.dress.Label())...)
 		if viol != "" {
 			rt.Fatalf("weighted_round_robin weights=%v history=%+v window N=%d via=%s: %s", ws, h.evs, N, via, viol)
 		}
@@ -299,6 +300,7 @@ func TestC05RRHealthHistory(t *testing.T) {
 				rt.Fatalf("harness: %v", err)
 			}
 			defer p.close()
+			p.dressFrom(rt)
 			h = &histState{p: p, until: map[string]time.Time{}}
 			for i := 0; i < nev; i++ {
 				h.step(rt, func() int { return 1 }, "serve")
@@ -353,7 +355,7 @@ func TestC05RRHealthHistory(t *testing.T) {
 		if h.nMem > 0 {
 			labels = append(labels, "membership-changed")
 		}
-		sub.Case(map[string]any{"n0": n0, "events": h.evs, "offset": offset, "k": k, "via": via, "inflight": load, "observers": obs}, m >= 2 && len(h.evs) > 0, labels...)
+		sub.Case(map[string]any{"n0": n0, "events": h.evs, "offset": offset, "k": k, "via": via, "inflight": load, "observers": obs, "dress": h.p.dress}, m >= 2 && len(h.evs) > 0, append(labels, h.p.dress.Label())...)
 		if viol != "" {
 			rt.Fatalf("round_robin n0=%d history=%+v offset=%d k=%d via=%s: %s", n0, h.evs, offset, k, via, viol)
 		}
